@@ -362,8 +362,16 @@ var c16Defects = []string{"none", "garbage", "basic-scheme", "expired-admin", "e
 
 type c16Req struct {
 	Method string
-	Path   string
+	Path   string // the path the request addresses (what the ACL is about)
 	Route  string
+	Raw    string // the spelling on the wire when it differs (percent-encoded)
+}
+
+func (r c16Req) wire() string {
+	if r.Raw != "" {
+		return r.Raw
+	}
+	return r.Path
 }
 
 func c16Open_(path string) bool {
@@ -405,7 +413,13 @@ func (w *c16World) requests() []c16Req {
 			k := r.Method + " " + p
 			if !seen[k] {
 				seen[k] = true
-				out = append(out, c16Req{r.Method, p, r.Path})
+				out = append(out, c16Req{Method: r.Method, Path: p, Route: r.Path})
+				// the same address spelled with a percent-encoded letter: the ACL is about the path, not
+				// about its spelling on the wire
+				if strings.HasPrefix(p, "/datasets/a/") || p == "/datasets/a" || strings.HasPrefix(p, "/datasets/b/") || p == "/datasets/b" {
+					raw := "/datasets/%6" + map[byte]string{'a': "1", 'b': "2"}[p[10]] + p[11:]
+					out = append(out, c16Req{Method: r.Method, Path: p, Route: r.Path + " (escaped)", Raw: raw})
+				}
 			}
 		}
 	}
@@ -501,7 +515,7 @@ func c16Run(t c16Task) (res c16Result) {
 		for _, rq := range reqs {
 			for _, d := range c16Defects {
 				w.ensureDatasets()
-				rec := w.do(rq.Method, rq.Path, w.tokens[d], "")
+				rec := w.do(rq.Method, rq.wire(), w.tokens[d], "")
 				res.Requests++
 				w = c16Fresh(w, rq, rec.Code)
 				if c16Open_(rq.Path) {
@@ -521,7 +535,7 @@ func c16Run(t c16Task) (res c16Result) {
 				}
 			}
 			w.ensureDatasets()
-			rec := w.do(rq.Method, rq.Path, w.tokens["admin"], "")
+			rec := w.do(rq.Method, rq.wire(), w.tokens["admin"], "")
 			res.Requests++
 			if c16Rejected(rec.Code) && !c16Open_(rq.Path) {
 				res.fail(fmt.Sprintf("C16:admin-rejected|%s %s", rq.Method, rq.Route),
@@ -541,7 +555,7 @@ func c16Run(t c16Task) (res c16Result) {
 				if c16Open_(rq.Path) || rq.Path == "/" {
 					continue
 				}
-				rec := w.do(rq.Method, rq.Path, w.tokens["client"], "")
+				rec := w.do(rq.Method, rq.wire(), w.tokens["client"], "")
 				res.Requests++
 				want := c16Decide(acl, rq.Method, rq.Path)
 				got := "serve"
@@ -563,12 +577,12 @@ func c16Run(t c16Task) (res c16Result) {
 						cls = "mutation-with-read-only"
 					}
 					res.fail(fmt.Sprintf("C16:served-beyond-acl:%s|%s %s|%s", cls, rq.Method, rq.Route, aclString(acl)),
-						fmt.Sprintf("client with ACL %s: %s %s was served (status %d); the ACL does not grant %s on that path", aclString(acl), rq.Method, rq.Path, rec.Code, c16Needed(rq.Method)),
-						map[string]interface{}{"method": rq.Method, "path": rq.Path, "acl": acl})
+						fmt.Sprintf("client with ACL %s: %s %s was served (status %d); the ACL does not grant %s on that path", aclString(acl), rq.Method, rq.wire(), rec.Code, c16Needed(rq.Method)),
+						map[string]interface{}{"method": rq.Method, "path": rq.wire(), "acl": acl})
 				case want != got:
 					res.fail(fmt.Sprintf("C16:granted-but-rejected|%s %s|%s", rq.Method, rq.Route, aclString(acl)),
-						fmt.Sprintf("client with ACL %s: %s %s was rejected (status %d) although an entry grants %s on that path and no deny entry matches", aclString(acl), rq.Method, rq.Path, rec.Code, c16Needed(rq.Method)),
-						map[string]interface{}{"method": rq.Method, "path": rq.Path, "acl": acl})
+						fmt.Sprintf("client with ACL %s: %s %s was rejected (status %d) although an entry grants %s on that path and no deny entry matches", aclString(acl), rq.Method, rq.wire(), rec.Code, c16Needed(rq.Method)),
+						map[string]interface{}{"method": rq.Method, "path": rq.wire(), "acl": acl})
 				}
 				if got == "serve" {
 					res.Served++
